@@ -75,6 +75,11 @@ pub struct Case {
     /// C01: the write script is applied this many times in a row (0 = once)
     #[serde(default)]
     pub wcycles: u8,
+    /// the connection is opened with connection_timeout 30 ms and the broker lets 80 ms pass
+    /// before it releases withheld replies: the timeout is about establishing the connection,
+    /// an established one may be silent for as long as it likes
+    #[serde(default)]
+    pub conn_timeout: bool,
 }
 
 pub struct Broker {
@@ -89,6 +94,8 @@ pub struct Broker {
     glue: Vec<bool>,
     gpos: usize,
     last_activity: Instant,
+    /// how long the broker waits for further requests before it releases withheld replies
+    idle_ms: u64,
     /// ids of the program channels (others, e.g. connection-thread channels, are answered at once)
     pub held_channels: Vec<u16>,
     pub close: Option<(u16, CloseSpec)>,
@@ -218,7 +225,7 @@ impl Responder for Broker {
             io.wire.grant(0);
         }
         // nothing new for a while: every channel that can make progress is waiting for us
-        if self.last_activity.elapsed() > Duration::from_millis(6) {
+        if self.last_activity.elapsed() > Duration::from_millis(self.idle_ms) {
             self.pump(io, true);
         }
     }
@@ -245,6 +252,7 @@ pub fn exec(c: &Case) -> Outcome {
         glue: c.glue.clone(),
         gpos: 0,
         last_activity: Instant::now(),
+        idle_ms: if c.conn_timeout { 80 } else { 6 },
         held_channels: Vec::new(),
         close: None,
         close_sent: false,
@@ -256,6 +264,7 @@ pub fn exec(c: &Case) -> Outcome {
     let ccfg = ClientCfg {
         frame_max: c.frame_max,
         mem_channel_bound: if c.mem_bound == 0 { 16 } else { c.mem_bound as usize },
+        connection_timeout_ms: if c.conn_timeout { Some(30) } else { None },
         ..Default::default()
     };
     let fmax = crate::checks::c02::negotiated(c.frame_max, 131072);
@@ -413,7 +422,7 @@ pub fn exec(c: &Case) -> Outcome {
             Ok(ch) => {
                 let id = ch.channel_id();
                 let r = ch.qos(0, 2, false);
-                std::mem::forget(ch);
+                crate::run::bury(ch);
                 r.map(|_| id).map_err(|e| format!("call on the reopened channel failed: {:?}", e))
             }
             Err(e) => Err(format!("{:?}", e)),
@@ -671,7 +680,7 @@ fn base_strat(with_close: bool) -> BoxedStrategy<Case> {
         Just(None).boxed()
     };
     (vec(prog, 2..=6), 1u8..=6, vec(any::<u16>(), 0..12), vec(any::<bool>(), 0..8), 0u8..3, any::<u64>(), close)
-        .prop_map(|(programs, hold, release, glue, conn_opens, salt, close)| Case {
+        .prop_map(move |(programs, hold, release, glue, conn_opens, salt, close)| Case {
             programs,
             hold,
             release,
@@ -685,6 +694,8 @@ fn base_strat(with_close: bool) -> BoxedStrategy<Case> {
             group: Vec::new(),
             turn: Vec::new(),
             wcycles: 0,
+            // (base sessions only; one in twelve)
+            conn_timeout: !with_close && salt % 12 == 0,
         })
         .boxed()
 }
@@ -692,7 +703,7 @@ fn base_strat(with_close: bool) -> BoxedStrategy<Case> {
 pub fn parts() -> Vec<Box<dyn PartDyn>> {
     vec![Box::new(Part::<Case> {
         name: "e2e",
-        rule: "2-6 channels on as many threads, each running 3-19 ops drawn from every synchronous entry point and its nowait variant (plus publishes, gets and consumes with messages), the connection thread opening/closing extra channels meanwhile; the broker answers with unique values per (channel, sequence), holds replies in a pool and releases them in a generated cross-channel order, optionally several per read segment; oracle: every call returns exactly the values of the reply generated for that channel and sequence number (expectation table shared with C12), nowait variants return without a reply, the wire per channel equals the expected frames; non-trivial = >= 2 calls in flight at once and replies released out of arrival order (measured in the broker); distinct by case hash",
+        rule: "2-6 channels on as many threads, each running 3-19 ops drawn from every synchronous entry point and its nowait variant (plus publishes, gets and consumes with messages), the connection thread opening/closing extra channels meanwhile, one session in twelve on a connection opened with connection_timeout 30 ms against a broker that withholds replies for 80 ms; the broker answers with unique values per (channel, sequence), holds replies in a pool and releases them in a generated cross-channel order, optionally several per read segment; oracle: every call returns exactly the values of the reply generated for that channel and sequence number (expectation table shared with C12), nowait variants return without a reply, the wire per channel equals the expected frames; non-trivial = >= 2 calls in flight at once and replies released out of arrival order (measured in the broker); distinct by case hash",
         cases: |t| t.pick(2000, 40_000),
         threads: 12,
         strategy: |_t| base_strat(false),
@@ -756,6 +767,7 @@ fn c01_strat() -> BoxedStrategy<Case> {
                 group,
                 turn,
                 wcycles,
+                conn_timeout: false,
             }
         })
         .boxed()
@@ -860,17 +872,28 @@ impl Responder for CrossBroker {
                     }
                 }
             }
-            _ => self.inner.on_frame(io, frame),
+            _ => {
+                // the owed CloseOk goes out before anything else is answered (the client may
+                // already be re-opening the id)
+                self.pay_close_ok(io);
+                self.inner.on_frame(io, frame)
+            }
         }
     }
     fn on_tick(&mut self, io: &mut BrokerIo) {
+        self.pay_close_ok(io);
+        self.inner.on_tick(io)
+    }
+}
+
+impl CrossBroker {
+    fn pay_close_ok(&mut self, io: &mut BrokerIo) {
         // (the broker core swallows the client's CloseOk for a channel we are closing and clears
         // `closing_channels`; that is the moment the owed CloseOk goes out)
         if self.owe_close_ok && !io.closing_channels.contains(&self.target) {
             self.owe_close_ok = false;
             io.send(AMQPFrame::Method(self.target, AMQPClass::Channel(Chan::CloseOk(channel::CloseOk {}))));
         }
-        self.inner.on_tick(io)
     }
 }
 
@@ -929,7 +952,7 @@ pub fn exec_crossing(c: &XCase) -> Outcome {
                     results.push(format!("{:?}", ch.qos(0, k as u16, false)));
                 }
                 // keep the channel open until the session is closed
-                std::mem::forget(ch);
+                crate::run::bury(ch);
                 let _ = tx.send((i, results, None));
             }
         });
@@ -953,7 +976,7 @@ pub fn exec_crossing(c: &XCase) -> Outcome {
     let reopen = crate::session::timed(crate::session::CALL_TIMEOUT, "avh-c09-reopen", move || {
         let r = conn.open_channel(Some((target + 1) as u16)).and_then(|ch| {
             let r = ch.qos(0, 9, false);
-            std::mem::forget(ch);
+            crate::run::bury(ch);
             r
         });
         (r, conn)
